@@ -21,6 +21,7 @@ pub mod c19;
 pub mod c19_ffi;
 pub mod c20;
 pub mod c18;
+pub mod realzones;
 
 pub fn dispatch(env: &Env) -> i32 {
     match env.prop.as_str() {
